@@ -15,6 +15,14 @@ import (
 
 func init() { checks["C10"] = c10 }
 
+// dotted returns a tag name, with a dot inside for every third repetition.
+func dotted(base, side string, rep int) string {
+	if rep%3 == 2 {
+		return base + ".v" + side
+	}
+	return base + side
+}
+
 // auditProblems compares every expected audit file of a run with the reference lineage.
 func auditProblems(wd string, exp *ref.Result, ti *mon.TraceIndex) (ps []mon.Problem, records, maxDepth int) {
 	loaded := map[string]*mon.AuditJSON{}
@@ -105,8 +113,9 @@ func c10(args []string) {
 			}
 			s.Procs = append(s.Procs, src,
 				&spec.Proc{Name: "A" + side, Kind: spec.KCmd, Cmd: spec.BuildCmd("A"+side, in, o1, nil, nil, nil)},
-				&spec.Proc{Name: "T" + side, Kind: spec.KMapToTags, Tags: []*spec.TagRule{{Key: "tag" + side, Rule: []string{"stem", "idx"}[rep%2]}, {Key: "const" + side, Rule: "const:c" + side}}},
-				&spec.Proc{Name: "S" + side, Kind: spec.KCmd, Cmd: spec.BuildCmd("S"+side, in, o1, nil, map[string]string{"tg": "in.tag" + side}, nil)})
+				// tag names may contain dots ("sample.id"): every third repetition uses such names
+				&spec.Proc{Name: "T" + side, Kind: spec.KMapToTags, Tags: []*spec.TagRule{{Key: dotted("tag", side, rep), Rule: []string{"stem", "idx"}[rep%2]}, {Key: dotted("const", side, rep), Rule: "const:c" + side}}},
+				&spec.Proc{Name: "S" + side, Kind: spec.KCmd, Cmd: spec.BuildCmd("S"+side, in, o1, nil, map[string]string{"tg": "in." + dotted("tag", side, rep)}, nil)})
 			s.Conns = append(s.Conns, &spec.Conn{From: "src" + side + ".out", To: "A" + side + ".in"}, &spec.Conn{From: "A" + side + ".out", To: "T" + side + ".in"},
 				&spec.Conn{From: "T" + side + ".out", To: "S" + side + ".in"}, &spec.Conn{From: "T" + side + ".out", To: "J." + map[string]string{"l": "a", "r": "b"}[side]})
 		}
@@ -144,7 +153,8 @@ func c10(args []string) {
 			Outs:  []*spec.Out{{Port: "out", Pattern: "hp/{i:in|basename}.{p:lab}.r{p:run}.out"}},
 			Feeds: []*spec.Feed{{Port: "lab", How: "str", Values: labs}, {Port: "vis", How: "str", Values: labs}}}
 		s.Procs = append(s.Procs, src, h, &spec.Proc{Name: "PS", Kind: spec.KParamSource, Values: runs},
-			&spec.Proc{Name: "D", Kind: spec.KCmd, Cmd: spec.BuildCmd("D", in, o1, nil, nil, nil)})
+			// D's command pattern has runs of blanks and a tab: the record must hold the command exactly as executed
+			&spec.Proc{Name: "D", Kind: spec.KCmd, Cmd: spec.BuildCmd("D", in, o1, nil, nil, nil) + "   size=41 \t  sleep=1"})
 		s.Conns = append(s.Conns, &spec.Conn{From: "src.out", To: "H.in"}, &spec.Conn{From: "PS.out", To: "H.run", Param: true}, &spec.Conn{From: "H.out", To: "D.in"})
 		exp := evalRef(s, nil)
 		if exp.Err != "" {
